@@ -186,7 +186,7 @@ def jobs(tier, seed):
         bits = [0, 1] if sk.K >= 6 else [0]
         for lmname in ["earley", "rescaled", "cky"]:
             # the rescaled variant's nested ratio terms exhaust the normaliser on length-3 contexts of the larger skeletons
-            cs = [c for c in contexts if len(c) <= 2] if (lmname == "rescaled" and not quick and sk.K >= 6) else contexts
+            cs = [c for c in contexts if len(c) <= 2] if (not quick and sk.K >= 6 and lmname in ("rescaled", "cky")) else contexts
             out += split_job(dict(case="lm", params=dict(shape=sh, contexts=cs, chain=chain, lms=[lmname]), timeout=2400), bits)
         for pn in ["earley", "cky"]:
             out += split_job(dict(case="unnormalised", params=dict(shape=sh, contexts=contexts[: (3 if quick else 7)], parsers=[pn])), bits)
@@ -199,7 +199,7 @@ def jobs(tier, seed):
         out.append(dict(case="lm", params=dict(shape=sh, contexts=contexts, chain=[["a", "b"]], lms=["rescaled"], heap="nondet", fixed=fx), budget=dict(max_paths=6000)))
     out.append(dict(case="rescaled_underflow", params=dict(n=240 if quick else 400)))
     # a longer context on a tiny skeleton: the product of per-column rescale factors must cancel exactly
-    for lmname, n_long in [("rescaled", 4 if quick else 5), ("earley", 10 if quick else 24), ("cky", 6 if quick else 10)]:
+    for lmname, n_long in [("rescaled", 4 if quick else 5), ("earley", 10 if quick else 16), ("cky", 6 if quick else 8)]:
         # one symbolic weight (S -> a S); the other two rules carry weight one: univariate rational functions
         out.append(dict(case="lm", params=dict(shape="G-S1", contexts=[["a"] * n_long], chain=[["a"] * (n_long // 2)], lms=[lmname], fixed={"0": 1}, const={"1": 1, "2": 1}), timeout=1500))
     out.append(dict(case="lm", params=dict(shape="G-S1", contexts=[[], ["a"]], chain=[["a"]], lms=["earley"], canary=True)))
